@@ -136,15 +136,9 @@ func setECS(
 	} else {
 		opt.SetUDPSize(dnsmsg.DefaultEDNSUDPSize)
 
-		for _, o := range opt.Option {
-			if edns, ok := o.(*dns.EDNS0_SUBNET); ok {
-				edns.SourceNetmask = prefixLen
-				edns.SourceScope = scope
-				edns.Address = ip
-
-				return nil
-			}
-		}
+		// Make sure that msg carries no ECS data other than the data from ecs:
+		// neither in duplicate options nor in additional OPT RRs.
+		rmECSOpts(msg)
 	}
 
 	opt.Option = append(opt.Option, &dns.EDNS0_SUBNET{
@@ -156,6 +150,22 @@ func setECS(
 	})
 
 	return nil
+}
+
+// rmECSOpts removes all EDNS Client Subnet options from all OPT RRs of msg.
+func rmECSOpts(msg *dns.Msg) {
+	for _, rr := range msg.Extra {
+		if opt, ok := rr.(*dns.OPT); ok {
+			opt.Option = slices.DeleteFunc(opt.Option, isECSOpt)
+		}
+	}
+}
+
+// isECSOpt returns true if o is an EDNS Client Subnet option.
+func isECSOpt(o dns.EDNS0) (ok bool) {
+	_, ok = o.(*dns.EDNS0_SUBNET)
+
+	return ok
 }
 
 // addrToNetIP returns ip as a net.IP with the correct number of bytes for fam.
